@@ -1,5 +1,6 @@
 """C16 - bit-counting helpers equal their definitions (spec/Bits.tla, harness/bits_drv.c)"""
 from vlib import *  # noqa
+from vlib import sh, REPO, HARNESS
 
 LEVEL = "exploration"
 RULE = ("TLC proves transcription = definition for every 16-bit word (SWAR popcount, smear clz, ctz trick, recursive-halving "
@@ -33,6 +34,15 @@ def run(run):
     run.exhaustive = True
     sample_trace(run, tr, 5)
     run.add_sample(read_line(tr, n))
+    # the same sources built for an ILP32 target (gcc -m32, freestanding): vectors, then a strided (thorough: complete) sweep
+    exe32 = run.path("bits32_drv")
+    rc, out = sh(["gcc", "-m32", "-O2", "-ffreestanding", "-nostdlib", "-static", "-fno-pie", "-no-pie", "-fno-stack-protector",
+                  "-fno-asynchronous-unwind-tables", "-DSTRIDE=%d" % (1 if run.thorough() else 16), "-isystem", os.path.join(HARNESS, "inc32"),
+                  "-I" + os.path.join(REPO, "include"), os.path.join(HARNESS, "bits32_drv.c"), os.path.join(REPO, "librfn/bitops.c"), "-o", exe32], timeout=300)
+    if rc != 0:
+        raise Infra("ILP32 build failed:\n" + out[-2000:])
+    tr32 = exec_script(run, exe32, [], "", run.path("bits32.ndjson"), "ilp32 vectors+sweep", timeout=900)
+    check_trace(run, "ilp32-vectors+sweep", "TraceBits", "TraceBits.cfg", tr32, timeout=900)
     # release-style build (NDEBUG, unsigned plain char, -O2): the vectors again
     exe2 = build_driver(run, "bits_drv_alt", "bits_drv.c", ["librfn/bitops.c"], cc=["gcc", "-std=gnu11", "-g", "-DLIBRFN_VERIF"] + ALT_FLAGS)
     tr2 = exec_script(run, exe2, [], "Vectors %d %d\n" % (run.seed + 1, 2000), run.path("bits-alt.ndjson"), "release-build vectors", timeout=300)
